@@ -288,6 +288,7 @@ func ReplaySchedule(r *mc.Run) bool {
 	if err := r.ReplayCase(&w); err != nil || w.Kind != "schedule" {
 		return false
 	}
+	mc.ReexecIn("VERIF_BIN_sched") // schedules only make sense in the overlay build
 	schedScratch = mc.TempDir("c04s")
 	defer os.RemoveAll(schedScratch)
 	twin := sPhased(w.Case)
